@@ -14,10 +14,11 @@ import (
 )
 
 // sizes of the templates as Mempool.tla assumes them (TxSize)
-var specSize = map[string]int{"T1": 293, "T2": 227, "T3": 227, "T4": 265, "T5": 227, "T6": 293, "T7": 367}
+var specSize = map[string]int{"T1": 293, "T2": 227, "T3": 227, "T4": 265, "T5": 227, "T6": 293, "T7": 367,
+	"R1": 459, "R2": 459, "R3": 459, "R4": 459}
 
 func (w *world) checkSizes() string {
-	for _, t := range txOrder {
+	for _, t := range w.allTx() {
 		sz := specSize[t]
 		if got := w.txs[t].GetSize(); got != sz {
 			return fmt.Sprintf("template %s serializes to %d bytes, Mempool.tla TxSize says %d", t, got, sz)
@@ -27,7 +28,7 @@ func (w *world) checkSizes() string {
 }
 
 func (w *world) nameOf(h common.Uint256) string {
-	for _, t := range txOrder {
+	for _, t := range w.allTx() {
 		if w.txs[t].Hash() == h {
 			return t
 		}
@@ -118,33 +119,64 @@ func (w *world) poolCheck(st rep.Step) (string, string) {
 	if snap.TotalSize > snap.MaxSize {
 		return "C34:size-limit", fmt.Sprintf("totalSize %d exceeds the limit %d", snap.TotalSize, snap.MaxSize)
 	}
-	// conflict slots = image of the pool
-	for name, m := range snap.Slots {
-		if name != "TxInputsReferKeys" {
-			return "C34:slot-index", fmt.Sprintf("slot %s holds %d keys although the pool has only transfers", name, len(m))
-		}
-		if len(m) != len(used) {
-			var ks []string
-			for k, h := range m {
-				who := "?"
-				for n2, op := range w.ops {
-					if op.ReferKey() == k {
-						who = n2
-					}
+	// conflict slots = image of the pool: the input slot holds exactly the pool's
+	// inputs; the producer slots exactly the owner / node / nickname claims of the
+	// registrations in the pool; every other slot is empty
+	expect := map[string]map[string]bool{"TxInputsReferKeys": {}}
+	for _, t := range got {
+		if r, ok := regOf[t]; ok {
+			for slot, who := range map[string][]string{"DPoSOwnerPublicKey": {r[0]}, "DPoSNodePublicKey": {r[1]},
+				"DPoSOwnerNodePublicKeys": {r[0], r[1]}, "DPoSNickname": {r[2]}} {
+				if expect[slot] == nil {
+					expect[slot] = map[string]bool{}
 				}
-				ks = append(ks, who+"->"+w.nameOf(h))
-			}
-			sort.Strings(ks)
-			return "C34:slot-index", fmt.Sprintf("input slot holds %d keys %v, pool transactions %v have %d inputs", len(m), ks, got, len(used))
-		}
-		for k, h := range m {
-			if used[k] != w.nameOf(h) {
-				return "C34:slot-index", fmt.Sprintf("input slot key maps to %s, the pool transaction spending it is %q", w.nameOf(h), used[k])
+				for _, x := range who {
+					expect[slot][x+"@"+t] = true
+				}
 			}
 		}
 	}
-	if len(used) > 0 && len(snap.Slots["TxInputsReferKeys"]) != len(used) {
-		return "C34:slot-index", fmt.Sprintf("input slot holds %d keys, pool transactions have %d inputs", len(snap.Slots["TxInputsReferKeys"]), len(used))
+	for k, t := range used {
+		expect["TxInputsReferKeys"][k+"@"+t] = true
+	}
+	for name, m := range snap.Slots {
+		if expect[name] == nil {
+			return "C34:slot-index", fmt.Sprintf("slot %s holds %d keys although no pool transaction claims such a resource", name, len(m))
+		}
+	}
+	for name, exp := range expect {
+		m := snap.Slots[name]
+		if len(m) != len(exp) {
+			var ks []string
+			for k, h := range m {
+				if len(k) > 12 {
+					k = k[:12]
+				}
+				ks = append(ks, k+"->"+w.nameOf(h))
+			}
+			sort.Strings(ks)
+			return "C34:slot-index", fmt.Sprintf("slot %s holds %d keys %v, the pool %v claims %d", name, len(m), ks, got, len(exp))
+		}
+		holders := map[string]int{}
+		for _, h := range m {
+			holders[w.nameOf(h)]++
+		}
+		want := map[string]int{}
+		for e := range exp {
+			want[e[strings.LastIndex(e, "@")+1:]]++
+		}
+		for t, c := range want {
+			if holders[t] != c {
+				return "C34:slot-index", fmt.Sprintf("slot %s maps %d keys to %s, expected %d", name, holders[t], t, c)
+			}
+		}
+		if name == "TxInputsReferKeys" {
+			for k, h := range m {
+				if used[k] != w.nameOf(h) {
+					return "C34:slot-index", fmt.Sprintf("input slot key maps to %s, the pool transaction spending it is %q", w.nameOf(h), used[k])
+				}
+			}
+		}
 	}
 	if snap.ProposalsUsed != 0 {
 		return "C34:proposal-budget", fmt.Sprintf("pending proposal budget %d with no proposal in the pool", snap.ProposalsUsed)
